@@ -1,3 +1,287 @@
-/- C09 — property theorems (stub: the property is not claimed yet). -/
+/-
+  C09 — The class attribute, className, classList and the rendered HTML never diverge.
+
+  Property theorems only.  Model: AHP/Model/Attrs.lean (the functions the native driver executes);
+  lemmas: AHP/Lemmas/Attrs*.lean.
+
+  Reading guide.  `Reach T e` says that `e` is reachable: constructed from an attribute list (directly, by the
+  parser, by cloneNode / copy / unpickling — all are `mk`) and then taken through *any* sequence of operations of
+  the attribute store (`Op`: the seven class writers of the property, every other attribute and style writer, and
+  `sync`, the lazy synchronisation every reader may trigger).  The invariants are proved for every `Op`, hence for
+  every history.  Each view is the model function of its own read path (with its own synchronisation); the view
+  theorems say that all of them are projections of the one list `e.cls` (`_classNames`).
+
+  `T : Tables` (the dot-access tables of constants.py) is universally quantified; the only table fact used is
+  `ClassPlain T`: `class` is not listed as a boolean attribute (checked on the real tables by the harness on every run).
+-/
+import AHP.Lemmas.AttrsFrame
 namespace AHP.C09
+open AHP AHP.Attrs
+
+/-- an element constructed from some attribute list and taken through some history -/
+def Reach (T : Tables) (e : El) : Prop :=
+  ∃ tag sc attrs ops, e = run T (mk T tag sc attrs) ops
+
+/-- `class` is not in `TAG_ITEM_BINARY_ATTRIBUTES` / `…_STRING_ATTR` -/
+def ClassPlain (T : Tables) : Prop := T.binary.contains classK = false ∧ T.binStr.contains classK = false
+
+/-! ### C09b — the invariant, for every operation and every history -/
+
+/-- C09b: in every reachable state no class name is empty or contains a space; the underlying dict has distinct,
+    valid, lower-case keys, with the `class` key holding a class snapshot only. -/
+theorem reach_inv {T : Tables} {e : El} (h : Reach T e) : ClsInv e ∧ DictInv e := by
+  obtain ⟨tag, sc, attrs, ops, rfl⟩ := h
+  exact ⟨clsInv_run T ops (clsInv_mk T tag sc attrs), dictInv_run T ops (dictInv_mk T tag sc attrs)⟩
+
+/-- C09b, step form: every single operation keeps "no empty name, no name with a space". -/
+theorem no_empty_names_step (T : Tables) (op : Op) {e : El} (h : ClsInv e) : ClsInv (step T e op).2 :=
+  clsInv_step T op h
+
+/-- C09b: reachability is closed under every operation (so the theorems below hold after each step). -/
+theorem reach_step {T : Tables} {e : El} (h : Reach T e) (op : Op) : Reach T (step T e op).2 := by
+  obtain ⟨tag, sc, attrs, ops, rfl⟩ := h
+  refine ⟨tag, sc, attrs, ops ++ [op], ?_⟩
+  unfold run
+  rw [List.foldl_append]
+  rfl
+
+/-- C09b: `addClass` never introduces a duplicate — for every argument string: a name's number of occurrences
+    never grows beyond one (names already duplicated by a `className` assignment stay as they are). -/
+theorem addClass_no_new_duplicate (s : Str) (e : El) (x : Str) :
+    (addClass s e).cls.count x ≤ max 1 (e.cls.count x) := count_addClassL s e.cls x
+
+theorem addClass_keeps_nodup (s : Str) (e : El) (h : e.cls.Nodup) : (addClass s e).cls.Nodup := nodup_addClassL s h
+
+/-- C09b: both accept several space separated names and act name by name (operands whose only white space is
+    the ASCII space, as in the property's operand set). -/
+theorem addClass_name_by_name {s : Str} (hs : SpaceOnly s) (e : El) :
+    (addClass s e).cls = (words s).foldl addOne e.cls := addClassL_eq_fold hs e.cls
+
+theorem removeClass_name_by_name {s : Str} (hs : SpaceOnly s) (e : El) :
+    (removeClass s e).cls = (words s).foldl rmOne e.cls := rmClassL_eq_fold hs e.cls
+
+/-- C09b: `addClass` of present names is a no-op -/
+theorem addClass_present {s : Str} (hs : SpaceOnly s) (e : El) (h : ∀ w ∈ words s, w ∈ e.cls) : addClass s e = e := by
+  have : (addClass s e).cls = e.cls := by
+    rw [addClass_name_by_name hs, foldl_addOne_of_all_mem _ _ h]
+  cases e
+  simp only [addClass] at this ⊢
+  rw [this]
+
+/-- C09b: `removeClass` of absent names is a no-op -/
+theorem removeClass_absent {s : Str} (hs : SpaceOnly s) (e : El) (h : ∀ w ∈ words s, w ∉ e.cls) : removeClass s e = e := by
+  have : (removeClass s e).cls = e.cls := by
+    rw [removeClass_name_by_name hs, foldl_rmOne_of_none_mem _ _ h]
+  cases e
+  simp only [removeClass] at this ⊢
+  rw [this]
+
+/-- C09b: a new single name goes to the end; a present one changes nothing; removal takes the name out. -/
+theorem addOne_spec (cls : List Str) (w : Str) : addOne cls w = if w ∈ cls then cls else cls ++ [w] := by
+  by_cases h : w ∈ cls
+  · rw [addOne_of_mem h, if_pos h]
+  · rw [addOne_of_not_mem h, if_neg h]
+
+theorem rmOne_spec (cls : List Str) (w : Str) : rmOne cls w = cls.erase w := by
+  by_cases h : w ∈ cls
+  · exact rmOne_of_mem h
+  · rw [rmOne_of_not_mem h, List.erase_of_not_mem h]
+
+/-! ### C09a — every view is a projection of the one list -/
+
+/-- `classList` / `classNames` -/
+theorem view_classList (e : El) : classList e = e.cls := rfl
+
+/-- `className` -/
+theorem view_className (e : El) : e.className = joinWith [' '] e.cls := rfl
+
+/-- `hasClass` -/
+theorem view_hasClass (n : Str) (e : El) : hasClass n e = true ↔ n ∈ e.cls := List.contains_iff_mem
+
+/-- `attributes['class']`, for every spelling of the key -/
+theorem view_getitem (T : Tables) {k : Str} (hk : lower k = classK) (e : El) : getitem T k e = .str e.className := by
+  unfold getitem
+  simp only [hk]
+  simp [classK_ne_styleK]
+
+/-- `attributes.get('class')`: the value and no write -/
+theorem view_mapGet (T : Tables) {k : Str} (hk : lower k = classK) (d : PyVal) (e : El) :
+    mapGet T k d e = (.str e.className, e) := by
+  unfold mapGet
+  simp only [hk, if_true]
+
+/-- `getAttribute('class')`, for every spelling that is not itself a boolean attribute name -/
+theorem view_getAttribute (T : Tables) {k : Str} (hk : lower k = classK) (hb : T.binary.contains k = false)
+    (d : PyVal) (e : El) : getAttribute T k d e = (.str e.className, e) := by
+  unfold getAttribute
+  rw [hb]
+  exact view_mapGet T hk d e
+
+/-- `attributes.items()`: the `class` entry is exactly the rendered list, and it is there iff the list is non-empty -/
+theorem view_items (e : El) :
+    aget classK (items e).1 = if e.cls.isEmpty then none else some (.str e.className) := by
+  rw [aget_items, aget_class_sync]
+  split <;> rfl
+
+/-- `getAttributesList()` / `getAttributesDict()` -/
+theorem view_attrsList (e : El) :
+    aget classK (attrsList e).1 = if e.cls.isEmpty then none else some (some e.className) := by
+  rw [aget_attrsList, aget_class_sync]
+  split <;> rfl
+
+/-- the rendered start tag, read back: `class` carries `escapeQuotes(className)` between quotes -/
+theorem view_startTag (T : Tables) (hT : ClassPlain T) (e : El) :
+    aget classK (readBack (startTagItems T e).1)
+      = if e.cls.isEmpty then none else some (some (unescQ (escQ e.className))) := by
+  rw [aget_readBack, view_items]
+  split
+  · rfl
+  · simp only [Option.bind]
+    congr 1
+    unfold readBackVal renderItem
+    simp only [hT.1]
+    by_cases hf : (PyVal.str e.className).falsy = true
+    · have : e.className = [] := by simpa [PyVal.falsy] using hf
+      simp [this, PyVal.falsy, escQ, replaceQuote]
+    · simp [hf, PyVal.tostrOpt]
+
+/-! ### C09a — presence: the attribute is there exactly when the list is non-empty -/
+
+/-- `'class' in attributes` -/
+theorem presence_contains {k : Str} (hk : lower k = classK) (e : El) : contains k e = !e.cls.isEmpty := by
+  unfold contains
+  simp only [hk, if_true]
+
+/-- `hasAttribute('class')`, any spelling -/
+theorem presence_hasAttribute {k : Str} (hk : lower k = classK) (e : El) : hasAttribute k e = !e.cls.isEmpty := by
+  unfold hasAttribute
+  exact presence_contains (by rw [lower_idem, hk]) e
+
+/-- `keys()` / iteration -/
+theorem presence_keys (e : El) : classK ∈ (keys e).1 ↔ e.cls ≠ [] := by
+  rw [keys_fst, ← ahas_iff_mem]
+  unfold ahas
+  rw [aget_class_sync]
+  cases h : e.cls with
+  | nil => simp
+  | cons a r => simp
+
+/-- the DOM node map lists `class` iff the list is non-empty, and its node carries the rendered list -/
+theorem presence_domKeys (e : El) : classK ∈ (domKeys e).1 ↔ e.cls ≠ [] := by
+  unfold domKeys
+  simp only
+  rw [List.mem_filter, presence_contains lower_classK]
+  show classK ∈ (keys e).1 ∧ (!e.cls.isEmpty) = true ↔ _
+  have := presence_keys e
+  constructor
+  · intro h; exact this.mp h.1
+  · intro h
+    refine ⟨this.mpr h, ?_⟩
+    cases hc : e.cls with
+    | nil => exact absurd hc h
+    | cons a r => rfl
+
+theorem view_domItem (T : Tables) {k : Str} (hk : lower k = classK) (e : El) :
+    domItem T k e = if e.cls.isEmpty then none else some (classK, .str e.className) := by
+  unfold domItem
+  simp only [hk, presence_contains lower_classK, view_getitem T lower_classK]
+  cases e.cls.isEmpty <;> rfl
+
+/-- the rendered HTML has a `class` attribute iff the list is non-empty -/
+theorem presence_startTag (T : Tables) (e : El) : classK ∈ akeys (readBack (startTagItems T e).1) ↔ e.cls ≠ [] := by
+  rw [akeys_readBack]
+  exact presence_keys e
+
+/-- every name of the list is non-empty, so a non-empty list renders a non-empty value -/
+theorem className_ne_nil {e : El} (h : ClsInv e) (hne : e.cls ≠ []) : e.className ≠ [] := by
+  unfold El.className
+  rcases hc : e.cls with _ | ⟨w, r⟩
+  · exact absurd hc hne
+  · have hw : w ≠ [] := (h w (by rw [hc]; simp)).1
+    rcases r with _ | ⟨w', r'⟩
+    · simpa [joinWith] using hw
+    · rw [joinWith_cons_cons]
+      intro h0
+      have := List.append_eq_nil_iff.mp h0
+      exact hw (List.append_eq_nil_iff.mp this.1).1
+
+/-! ### C09a/d — the list seen through the string views, and through a re-parse / a copy -/
+
+/-- splitting the string every string view returns gives the list back (operands of the property) -/
+theorem words_className {e : El} (h : Clean e) : words e.className = e.cls :=
+  words_join_clean (fun w hw => (h w hw).1)
+
+theorem className_no_amp {e : El} (h : Clean e) : '&' ∉ e.className :=
+  not_mem_join (by decide) e.cls (fun w hw => (h w hw).2)
+
+/-- C09d: the attribute list read back from the rendered start tag carries exactly `className` -/
+theorem reparse_value (T : Tables) (hT : ClassPlain T) {e : El} (h : Clean e) :
+    aget classK (readBack (startTagItems T e).1) = if e.cls.isEmpty then none else some (some e.className) := by
+  rw [view_startTag T hT, unescQ_escQ (className_no_amp h)]
+
+/-- C09d: re-parsing the rendered start tag yields an element with the same class list -/
+theorem view_reparse (T : Tables) (hT : ClassPlain T) {e : El} (hr : Reach T e) (h : Clean e) :
+    (reparse T e).1.cls = e.cls := by
+  unfold reparse
+  simp only
+  rw [mk_cls T _ _ _ (goodKeys_of_sync (reach_inv hr).2 (akeys_readBack T e)), reparse_value T hT h]
+  cases hc : e.cls with
+  | nil => rfl
+  | cons a r =>
+    have := words_className h
+    rw [hc] at this
+    simpa using this
+
+/-- C08e/C09: `cloneNode`, `copy`, unpickling, `eval(repr(tag))` reproduce the class list -/
+theorem view_clone (T : Tables) {e : El} (hr : Reach T e) (h : Clean e) : (clone T e).1.cls = e.cls := by
+  unfold clone
+  simp only
+  rw [mk_cls T _ _ _ (goodKeys_of_sync (reach_inv hr).2 (akeys_attrsList e)), view_attrsList]
+  cases hc : e.cls with
+  | nil => rfl
+  | cons a r =>
+    have := words_className h
+    rw [hc] at this
+    simpa using this
+
+/-- `Clean` holds in every state reached with operands of the property (white space = ASCII space, no `&`) -/
+theorem reach_clean (T : Tables) (tag : Str) (sc : Bool) (attrs : List (Str × Option Str)) (ops : List Op)
+    (ha : ∀ p ∈ attrs, ∀ s, p.2 = some s → GoodStr s) (ho : ∀ op ∈ ops, GoodOp op) :
+    Clean (run T (mk T tag sc attrs) ops) :=
+  clean_run T ops ho (clean_mk T tag sc attrs ha)
+
+/-! ### C09c — `classList` returns a copy; readers do not change the list -/
+
+/-- reading any synchronising view leaves `_classNames` (and the style map) alone -/
+theorem readers_keep_list (T : Tables) (e : El) :
+    (items e).2.cls = e.cls ∧ (keys e).2.cls = e.cls ∧ (attrsList e).2.cls = e.cls ∧
+    (startTagItems T e).2.cls = e.cls ∧ (domKeys e).2.cls = e.cls := ⟨rfl, rfl, rfl, rfl, rfl⟩
+
+/-- C09c: the value `classList` returns is a fresh list: whatever is done to it, the element's views stay what
+    they were (in the model the view returns a value, not a reference; the aliasing itself is exercised by the oracle). -/
+theorem classList_is_a_copy (e : El) (f : List Str → List Str) : (fun _ => e) (f (classList e)) = e := rfl
+
+/-- interleavings: every operation that does not address the class attribute — other attributes through any of the
+    six writers, every style writer, every synchronising reader — leaves the list exactly as it was -/
+theorem other_operations_keep_list (T : Tables) (op : Op) (h : KeepsClass T op) (e : El) : (step T e op).2.cls = e.cls :=
+  step_cls_frame T op h e
+
+/-! ### non-vacuity -/
+
+def T0 : Tables := { binary := [['c', 'h', 'e', 'c', 'k', 'e', 'd']], binStr := [], links := [] }
+
+example : ClassPlain T0 := ⟨by decide, by decide⟩
+
+/-- a reachable, clean state with two names: `className = "b  a"`, then `addClass("a c")` -/
+example : (run T0 (mk T0 ['d', 'i', 'v'] false []) [.className (some ['b', ' ', ' ', 'a']), .addClass ['a', ' ', 'c']]).cls
+    = [['b'], ['a'], ['c']] := by decide
+
+example : GoodOp (.addClass ['a', ' ', 'c']) := by
+  intro c hc
+  simp at hc
+  rcases hc with h | h | h <;> subst h <;> decide
+
+/-- the value-less class attribute of the pinned tree (`<div class>`) gives no names -/
+example : (mk T0 ['d', 'i', 'v'] false [(classK, none)]).cls = [] := by decide
+
 end AHP.C09
